@@ -75,6 +75,8 @@ def parse_summary(path):
         p = line.split(" ")
         if p[0] == "hist" and len(p) == 3:
             d["hist"][p[1]] = int(p[2])
+        elif p[0] == "parsedof" and len(p) == 3:
+            d.setdefault("parsedof", {})[p[1]] = int(p[2])
         elif p[0] == "normdiff" and len(p) == 3:
             d.setdefault("normdiff", {})[p[1]] = int(p[2])
         elif p[0] == "class" and len(p) == 4:
